@@ -1,22 +1,22 @@
 CONSTANTS
   Reward = 60000
   Maturity = 3
-  Slates = {"s1"}
+  Slates = {"s1", "s2"}
   Amounts = {1000}
   NFund = 1
-  MaxH = 9
-  MaxLog = 1
+  MaxH = 6
+  MaxLog = 2
   UseLate = FALSE
   UseTtl = FALSE
   UseInvoice = FALSE
   UseAccounts = FALSE
-  UseMineTo = TRUE
+  UseMineTo = FALSE
   UseCancelBySlate = FALSE
   MaxAdv = 1
-  MaxFork = 2
+  MaxFork = 1
   UseScan = TRUE
   UseAccounts2 = FALSE
-  UseSelf = FALSE
+  UseSelf = TRUE
   FundAcct2 = FALSE
   UseDiverge = FALSE
   UseAdv = FALSE
